@@ -942,9 +942,11 @@ def finish(prop, tier, seed, units, results, ledger, findings, fixed, pmeta, arg
                      "reason": r.get("reason"), "label": "bounded -- NOT counted as proved"}
                     for r in results if r.get("bounded")]
     assumptions = list(pmeta.get("assumptions", []))
+    claim_text = ""
     try:
         with open(os.path.join(CONTRACTS, "properties_meta.toml"), "rb") as f:
             pm = tomllib.load(f).get("claim", {}).get(prop, {})
+        claim_text = pm.get("text", "")
         if pm.get("note"):
             assumptions.append("scope of the claim: " + pm["note"])
     except Exception:
@@ -954,6 +956,11 @@ def finish(prop, tier, seed, units, results, ledger, findings, fixed, pmeta, arg
             s = "%s assumes: %s" % (u["id"], a)
             if s not in assumptions:
                 assumptions.append(s)
+    unit_ids = set(u["id"] for u in load_registry().get("unit", []) if prop in u.get("props", []))
+    known_printed = [f for f in findings if f.get("property") == prop]
+    mine = set(f.get("obligation") for f in known_printed)
+    known_printed += [f for f in findings if f.get("property") != prop and f.get("obligation") in unit_ids and f.get("obligation") not in mine
+                      and not mine.add(f.get("obligation"))]
     trusted = list(load_registry().get("trusted_base", {}).get("items", []))
     ev = {
         "property_id": prop, "tier": tier, "seed": seed, "level": "proof",
@@ -966,7 +973,7 @@ def finish(prop, tier, seed, units, results, ledger, findings, fixed, pmeta, arg
             "bounded_stand_ins": bounded_list,
             "known_findings_printed": known_printed,
             "undecided": [{"id": r["id"], "reason": (r.get("reason") or "")[:600]} for r in undecided],
-            "explanation": pmeta.get("explanation", ""),
+            "explanation": pmeta.get("explanation", "") or claim_text,
             "repo_tree_hash": tree_hash(os.path.abspath(args.repo)),
             "exhaustive": False,
         },
@@ -983,11 +990,6 @@ def finish(prop, tier, seed, units, results, ledger, findings, fixed, pmeta, arg
         log("bounded-ok  %-34s %s  [%s]" % (r["id"], r.get("backend", ""), r.get("bound", "")))
     for r in bounded_other:
         log("bounded-incomplete %-27s %s" % (r["id"], (r.get("reason") or r.get("status"))[:200]))
-    unit_ids = set(u["id"] for u in load_registry().get("unit", []) if prop in u.get("props", []))
-    known_printed = [f for f in findings if f.get("property") == prop]
-    mine = set(f.get("obligation") for f in known_printed)
-    known_printed += [f for f in findings if f.get("property") != prop and f.get("obligation") in unit_ids and f.get("obligation") not in mine
-                      and not mine.add(f.get("obligation"))]
     for f in known_printed:
         log("KNOWN-FINDING: property=%s obligation=%s %s%s" % (prop, f.get("obligation"),
             ("input " + f["block"] + ": ") if f.get("block") else "", f.get("what", "")))
